@@ -30,6 +30,10 @@ const preamble = `(declare-fun strkey ((Array Int Int) Int Int) Int)
 
 // specFuncSMT renders the spec functions in `used` (transitively closed) in dependency order.
 func (w *World) specFuncSMT(used map[string]bool) string {
+	return w.specFuncSMTOpaque(used, nil)
+}
+
+func (w *World) specFuncSMTOpaque(used map[string]bool, opaque map[string]bool) string {
 	type rendered struct {
 		text string
 		deps []string
@@ -66,7 +70,7 @@ func (w *World) specFuncSMT(used map[string]bool) string {
 			vars[p.Name] = v
 		}
 		rt := flatten(specType(sf.Ret))[0]
-		if sf.Uninterp {
+		if sf.Uninterp || opaque[name] {
 			var ss []string
 			for _, p := range sf.Params {
 				ss = append(ss, flatten(specType(p.Type))...)
@@ -210,7 +214,13 @@ type Obligation struct {
 func (e *Enc) queries(extraAxioms string) []*Obligation {
 	var out []*Obligation
 	extraAxioms += e.lemmaAxioms()
-	specs := e.W.specFuncSMT(e.used)
+	opaque := map[string]bool{}
+	if e.spec != nil {
+		for _, o := range e.spec.Opaque {
+			opaque[o] = true
+		}
+	}
+	specs := e.W.specFuncSMTOpaque(e.used, opaque)
 	hasRec := strings.Contains(specs, "define-fun-rec")
 	var decls strings.Builder
 	// declarations first (all of them: later declarations are harmless)
